@@ -35,6 +35,7 @@ import (
 
 	"github.com/mgtv-tech/redis-GunYu/config"
 	"github.com/mgtv-tech/redis-GunYu/pkg/log"
+	"github.com/mgtv-tech/redis-GunYu/pkg/redis/checkpoint"
 	usync "github.com/mgtv-tech/redis-GunYu/pkg/sync"
 	"github.com/mgtv-tech/redis-GunYu/pkg/vfdoubles"
 	"github.com/mgtv-tech/redis-GunYu/pkg/vfutil"
@@ -302,6 +303,7 @@ type vf6Output struct {
 	mu        sync.Mutex
 	spIds     [][]string
 	setRunIds []string
+	resets    int
 	sent      bool
 	kind      string // "aof" | "rdb"
 	left      int64
@@ -327,6 +329,13 @@ func (o *vf6Output) StartPoint(ctx context.Context, ids []string) (StartPoint, e
 func (o *vf6Output) SetRunId(ctx context.Context, id string) error {
 	o.mu.Lock()
 	o.setRunIds = append(o.setRunIds, id)
+	o.mu.Unlock()
+	return nil
+}
+
+func (o *vf6Output) ResetStartPoint(ctx context.Context, ids []string) error {
+	o.mu.Lock()
+	o.resets++
 	o.mu.Unlock()
 	return nil
 }
@@ -1110,6 +1119,12 @@ func (o *vf6RealOut) SetRunId(ctx context.Context, id string) error {
 	o.rec.mu.Unlock()
 	return o.ro.SetRunId(ctx, id)
 }
+func (o *vf6RealOut) ResetStartPoint(ctx context.Context, ids []string) error {
+	o.rec.mu.Lock()
+	o.rec.resets++
+	o.rec.mu.Unlock()
+	return o.ro.ResetStartPoint(ctx, ids)
+}
 func (o *vf6RealOut) Close() {}
 func (o *vf6RealOut) Send(ctx context.Context, reader ChannelReader) error {
 	if err := o.rec.Send(ctx, reader); err != nil {
@@ -1560,6 +1575,57 @@ func TestVerifC06(t *testing.T) {
 			base := &vf6Case{backend: wd.backend, logSize: 1 << 20, tokId: ""}
 			ch := h.newChannel(base, dir)
 
+			if wd.kind == "cached-interrupted" {
+				// the target follows A at x; the cache holds a snapshot of A at oA > x (+ log);
+				// the cached snapshot replay fails; the cache is lost; the run restarts
+				master := wd.oA + wd.k1
+				srcA := vf6Source{id1: A, id2: vf6ZeroId, switchOff: -2, backlog: true, first: 1, blen: master, master: master, snapLen: wd.snap, capaId: true, k: wd.k2}
+				real := newOut(srcA)
+				bg := context.Background()
+				if wd.resume {
+					if err := real.ro.setCheckpoint(bg, A, wd.x, config.Version); err != nil {
+						t.Fatalf("seed checkpoint: %v", err)
+					}
+				} else {
+					real.ro.checkpointInMem = checkpoint.CheckpointInfo{Key: real.ro.cfg.CheckpointName, RunId: A, Offset: wd.x, Version: config.Version}
+				}
+				*truth = vf6Truth{id: A, upto: wd.x}
+				c := *base
+				c.src, c.s1, c.sb, c.s2, c.so = srcA, wd.seedA, 1, 2, 3
+				c.cRun, c.tokId, c.hasRdb, c.rdbLeft, c.rdbSize = A, A, true, wd.oA, wd.snap
+				if wd.k1 > 0 {
+					c.hasAof, c.aofL, c.aofR = true, wd.oA, wd.oA+wd.k1
+				}
+				if err := h.populate(&c, ch, c.world()); err != nil {
+					t.Fatalf("populate: %v", err)
+				}
+				real.failSnapshot = true
+				res := h.round(&c, ch, rpl, real, truth)
+				real.failSnapshot = false
+				if !s.aborted {
+					ch.Close()
+					dir2 := dir + "-2"
+					os.MkdirAll(dir2, 0o777)
+					ch = h.newChannel(base, dir2)
+					n := res.after
+					n.cRun, n.tokId, n.hasRdb, n.hasAof = "", "", false, false
+					n.src.master, n.src.blen, n.src.k = res.final, res.final, 9
+					rpl = map[string]interface{}{"schedule": wd.String(), "round": 1}
+					res = h.round(&n, ch, rpl, real, truth)
+					os.RemoveAll(dir2)
+				}
+				ch.Close()
+				os.RemoveAll(dir)
+				if s.aborted && attempt < 3 {
+					h.s.Count("aborted_attempts_repeated")
+					continue
+				}
+				s.Count("src_" + srcTag)
+				s.Count("window_" + wd.kind + map[bool]string{true: "_resume", false: "_inmem"}[wd.resume])
+				s.commit(h)
+				return
+			}
+
 			// history A alone: full sync at oA, then the stream up to x
 			srcA := vf6Source{id1: A, id2: vf6ZeroId, switchOff: -2, backlog: true, first: 1, blen: wd.oA, master: wd.oA, snapLen: wd.snap, capaId: true}
 			c := *base
@@ -1655,6 +1721,8 @@ func TestVerifC06(t *testing.T) {
 		}
 		if r.Chance(1, 3) {
 			wd.kind, wd.failover = "restart-rekey", true
+		} else if r.Chance(1, 4) {
+			wd.kind, wd.failover = "cached-interrupted", false
 		}
 		wd.oA = int64(r.Range(1, 400))
 		wd.x = wd.oA + int64(r.Range(1, 300))
@@ -1669,6 +1737,15 @@ func TestVerifC06(t *testing.T) {
 		wd.o = lo + int64(r.Intn(int(vf6Clamp(wd.x-lo))+40))
 		wd.k1 = int64(r.Intn(int(vf6Clamp(wd.x-wd.o)) + 60))
 		wd.k2 = int64(r.Intn(80))
+		if wd.kind == "cached-interrupted" {
+			// x = stored position, oA = offset of the cached snapshot (mostly beyond x)
+			wd.x = int64(r.Range(0, 300))
+			wd.oA = wd.x + int64(r.Range(-3, 120))
+			if wd.oA < 0 {
+				wd.oA = 0
+			}
+			wd.k1 = int64(r.Intn(60))
+		}
 		return wd
 	}
 
